@@ -103,6 +103,32 @@ structure Env (α : Type) where
   /-- `math.exp` of `DualAveragingStepSize.learn` -/
   daSet : α → α
 
+/-- which value of `self._epoch` a statement of the loop body reads -/
+inductive EpochRef where
+  | epochBefore | epochAfter
+deriving Repr, BEq, DecidableEq
+
+/-- the phases of `MCMC.run` (`TTGen/C15_RunOrder.lean` lists them in SOURCE order) -/
+inductive Phase where
+  | logInitial | evaluateInitial
+  | select | propose | decide | acceptReject
+  | log (sample : EpochRef)
+  | tune (sample : EpochRef) (passesAccProb passesAccepted : Bool)
+  | counter | checkpoint
+deriving Repr, BEq, DecidableEq
+
+/-- the order `mcmcStep` implements: the operator is drawn, proposes, the move is decided (the joint is
+evaluated inside the decision, only in the non-degenerate branch), accepted or restored, THEN the loggers
+write the row of this iteration number, THEN the operator is tuned with the acceptance probability and the
+decision of this move and this iteration number, then the counter advances (and a checkpoint may be
+written, C17/C18). -/
+def stepOrder : List Phase :=
+  [.select, .propose, .decide, .acceptReject, .log .epochBefore, .tune .epochBefore true true,
+   .counter, .checkpoint]
+
+/-- before the loop: loggers write row 0, then the joint is evaluated at the initial state -/
+def initialOrder : List Phase := [.logInitial, .evaluateInitial]
+
 /-- record of one transition, for the correspondence -/
 structure Rec (α : Type) where
   opIdx : Nat
@@ -115,6 +141,8 @@ structure Rec (α : Type) where
   stateAfter : Params α
   logJointAfter : α
   logged : LogP α                 -- what a logger holding the joint writes for this row
+  logSample : Nat                 -- `sample=` of `logger.log`
+  tuneSample : Nat                -- `sample=` of `operator.tune`
   scaleAfter : α
 deriving Repr
 
@@ -317,7 +345,7 @@ def mcmcStep (env : Env α) (half : α) (m : Machine α) (tape : Tape α) :
         { opIdx := oi, proposed := prop, hr := hr, lpProposed := d.lpProposed,
           accProb := d.accProb, accepted := d.accepted, uUsed := d.uUsed,
           stateAfter := stateAfter, logJointAfter := logJointAfter, logged := logged,
-          scaleAfter := op2.scale })
+          logSample := m.epoch, tuneSample := m.epoch, scaleAfter := op2.scale })
 
 /-- `n` iterations (stops early only when the tape runs dry) -/
 def run (env : Env α) (half : α) : Nat → Machine α → Tape α → Machine α × List (Rec α)
